@@ -362,7 +362,7 @@ def run_c10(tier, seed, pid="C10"):
     cats = ["struct", "field", "enum", "impl", "signal_block", "type", "device", None]       # None: registered without a category
     for cat in cats:
         for g in GENS:
-            for pos in ("only", "after-a-passing-check", "before-a-passing-check"):
+            for pos in ("only", "after-a-passing-check", "before-a-passing-check", "after-a-sibling-closure", "before-a-sibling-closure"):
                 pfcp = pycodec.parse_text(probe_text) if hasattr(pycodec, "parse_text") else None
                 if pfcp is None:
                     from fcp.parser import get_fcp_from_string
@@ -377,11 +377,24 @@ def run_c10(tier, seed, pid="C10"):
                 def rejecting(self, fcp, node, calls=calls):
                     calls["n"] += 1
                     return fcp_error("rejected by the probe check")
+
+                def rule(reject, calls=calls):
+                    # parametrised checks made by one factory: closures over different values that share their code object
+                    def check(self, fcp, node):
+                        if not reject:
+                            return ROk(())
+                        calls["n"] += 1
+                        return fcp_error("rejected by the probe check")
+                    return check
                 if pos == "after-a-passing-check":
                     ver.register(passing, cat)
-                ver.register(rejecting, cat)
+                if pos == "after-a-sibling-closure":
+                    ver.register(rule(False), cat)
+                ver.register(rule(True) if "sibling" in pos else rejecting, cat)
                 if pos == "before-a-passing-check":
                     ver.register(passing, cat)
+                if pos == "before-a-sibling-closure":
+                    ver.register(rule(False), cat)
                 prepare_dir(out, rng.choice(["unrelated", "clash", "absent"]), g)
                 obs = run_call(g, pfcp, out, "api", manager=GeneratorManager(ver))
                 chk.count(1, traces=1)
